@@ -1917,7 +1917,13 @@ func (e *errorWriter) Close() error {
 			if e.respMeta.end.httpCode == 0 || e.respMeta.end.httpCode == http.StatusOK {
 				e.respMeta.end.httpCode = http.StatusInternalServerError
 			}
-			e.respMeta.end.err = connect.NewError(connect.CodeInternal, fmt.Errorf("failed to decompress body: %w", err))
+			var limitErr *connect.Error
+			if errors.As(err, &limitErr) && limitErr.Code() == connect.CodeResourceExhausted {
+				// the body does not fit the message buffer once decompressed
+				e.respMeta.end.err = limitErr
+			} else {
+				e.respMeta.end.err = connect.NewError(connect.CodeInternal, fmt.Errorf("failed to decompress body: %w", err))
+			}
 			body = nil
 		} else {
 			body = uncompressed
